@@ -206,10 +206,11 @@ def job_system(variant, dim, ncond, ntar, exact, errmode, aniso, tier):
             captured["iso_t"] = rnp.array(model.isometrize(rnp.array([list(r) for r in sy["tpos"]], dtype=object)), dtype=object).copy()
             # chunked evaluation must agree
             fld_c, var_c = k([list(r) for r in sy["tpos"]], return_var=True, chunk_size=1, **kw)
+            fld_only = rnp.array(k([list(r) for r in sy["tpos"]], return_var=False, **kw), dtype=object).ravel().copy()
         finally:
             kb.calc_field_krige_and_variance_c = orig
         K, M = kstub.INV_LOG[0]
-        return K, M, vecs, fld, var, fld_c, var_c, k.krige_size, len(kstub.INV_LOG)
+        return K, M, vecs, fld, var, fld_c, var_c, k.krige_size, len(kstub.INV_LOG), fld_only, {kk: vv.copy() for kk, vv in captured.items()}
 
     paths = explore(run, max_paths=64)
     n_ok = 0
@@ -219,7 +220,7 @@ def job_system(variant, dim, ncond, ntar, exact, errmode, aniso, tier):
             out.append(rec(base, "error", detail=f"{p.exc!r} {p.tb}"))
             continue
         n_ok += 1
-        K, M, vecs, fld, var, fld_c, var_c, ksize, ninv = p.out
+        K, M, vecs, fld, var, fld_c, var_c, ksize, ninv, fld_only, captured = p.out
         C = p.conds
         A = iso_matrix(dim, sy, aniso)
         cpts = [[sy["cpos"][a][i].e for a in range(dim)] for i in range(ncond)]
@@ -330,6 +331,7 @@ def job_system(variant, dim, ncond, ntar, exact, errmode, aniso, tier):
             sill = sy["var"].e + sy["nug"].e
             out.append(prove(f"{base}/variance[{t}]==max(sill-k^T M k,0)", C, lift(var[t]) == z3.If(sill - qf >= 0, sill - qf, z3.RealVal(0)), T, witness_vars=wv, replay=rb, pairwise=False))
             out.append(prove(f"{base}/chunked estimate[{t}]==unchunked", C, lift(fld_c[t]) == lift(fld[t]), T, witness_vars=wv, replay=rb, pairwise=False))
+            out.append(prove(f"{base}/estimate[{t}] with return_var=False == estimate with the variance", C, lift(fld_only[t]) == lift(fld[t]), T, witness_vars=wv, replay=rb, pairwise=False))
             out.append(prove(f"{base}/chunked variance[{t}]==unchunked", C, lift(var_c[t]) == lift(var[t]), T, witness_vars=wv, replay=rb, pairwise=False))
         if ninv != 1:
             out.append(rec(base + "/matrix inverted once per set_condition", "sat", witness={}, replay={"kind": "system", "inputs": rb[1]({})}, detail=f"{ninv} inversions"))
@@ -624,6 +626,9 @@ def replay_system(inputs):
             bad.append(f"variance[{t}] library={var[t]} direct solve={va}")
     if not (np.allclose(fld, fld_c, rtol=1e-9, atol=1e-11) and np.allclose(var, var_c, rtol=1e-9, atol=1e-11)):
         bad.append("chunked != unchunked")
+    fld_only = k(tp, return_var=False, **kw2)
+    if not np.allclose(fld_only, fld, rtol=1e-9, atol=1e-11):
+        bad.append(f"return_var=False gives {np.asarray(fld_only).tolist()} but {np.asarray(fld).tolist()} with the variance")
     return (not bad), f"variant={variant} cond_pos={cp.tolist()} cond_val={cv.tolist()} targets={tp.tolist()} {par} {kw} failing={bad}"
 
 
